@@ -81,7 +81,12 @@ Definition sincos (x : float) : float * float :=
 Definition F_sin (x : float) : float := fst (sincos x).
 Definition F_cos (x : float) : float := snd (sincos x).
 
-Definition F_ofN (n : N) : float := PrimFloat.of_uint63 (Uint63.of_Z (Z.of_N n)).
+(** [n as f64] for a machine word: exact conversion of a 63-bit integer; a 64-bit one is split into its upper 32
+    bits (scaled exactly) and the rest, and the one addition rounds to nearest-even like the hardware conversion *)
+Definition F_ofN (n : N) : float :=
+  if (n <? 2 ^ 63)%N then PrimFloat.of_uint63 (Uint63.of_Z (Z.of_N n))
+  else PrimFloat.of_uint63 (Uint63.of_Z (Z.of_N (n / 2 ^ 32))) * 0x1p+32
+       + PrimFloat.of_uint63 (Uint63.of_Z (Z.of_N (n mod 2 ^ 32))).
 Definition F_finite (x : float) : bool :=
   PrimFloat.ltb (PrimFloat.abs x) infinity.
 
